@@ -363,6 +363,14 @@ def setup(repo: str) -> tuple[Program, list[str]]:
     p = build(repo)
     add_macros(p)
     targets = contracts(p)
+    # the server's RESULT handler decrements the per-employee counter: its
+    # contract lives with the other client-facing handlers (c13)
+    from contracts import c13
+    mine = set(p.contracts)
+    c13.contracts(p)
+    contracts(p)            # the scheduler contracts of this module win
+    assert mine <= set(p.contracts)
+    targets.append('DetachedServer.handle_result')
     from contracts.dispatch import add_dispatch
     targets += [t for t in add_dispatch(p)
                 if t.endswith(('SUBMIT_BATCH', 'UPDATE'))]
@@ -409,6 +417,9 @@ def bounded(tier: str) -> dict:
         'Manager.handle_update': manager,
         'Manager.send_up_or_schedule_tasks': manager,
         'Manager.handle_result_from_below': manager,
+        'DetachedServer.handle_result': __import__(
+            'contracts.c13', fromlist=['x']).bounded(tier)[
+                'DetachedServer.handle_result'],
         **{k: g for k, g in __import__(
             'contracts.dispatch', fromlist=['x']).bounded_dispatch(
                 tier).items() if k.endswith(('SUBMIT_BATCH', 'UPDATE'))},
